@@ -30,18 +30,26 @@ def value_table(F, fn, domain, inline=None, add_literals=False):
         paths = S.Sym(F, fn, inline=inline).run(split_result=True)
     except S.TooManyPaths:
         raise Unreadable("too many paths")
+    return table_of_paths(paths, var, domain, add_literals)
+
+
+def table_of_paths(paths, var, domain, add_literals=False, ignore=None):
+    """the table of `var` over the given path summaries; atoms for which ignore(atom) holds are not the table's business"""
     dom = list(domain)
     if add_literals:
         for p in paths:
             for a in p.atoms:
+                if ignore and ignore(a):
+                    continue
                 if a[0] == "eq" and a[1] == var and a[2][0] == "lit" and a[2][1] not in dom:
                     dom.append(a[2][1])
                 elif a[0] != "eq" and VS.mentions(a[1], var):
                     raise Unreadable("the argument is tested by more than equality with literals: %s" % S.show_atom(a))
     out = {}
     for p in paths:
-        vals, bad = VS.path_set(p.atoms, var, dom)
-        other = [a for a in p.atoms if VS.atom_set(a, var, dom) is None]
+        atoms = [a for a in p.atoms if not (ignore and ignore(a))]
+        vals, bad = VS.path_set(atoms, var, dom)
+        other = [a for a in atoms if VS.atom_set(a, var, dom) is None]
         if not vals:
             continue
         if bad or other:
@@ -111,3 +119,114 @@ def string_tables(F, path, extra=()):
         kind, pay = classify(r)
         dec[v] = ctor_name(pay) if kind == "ok" else None
     return enc, dec, fwd, bwd
+
+
+# ---- unit-only enums on the wire: what Serialize emits per variant, what Deserialize accepts (derived or hand-written alike)
+SER_SELF = "serde_core::ser::Serialize::serialize"
+DE_SELF = "serde_core::de::Deserialize::deserialize"
+SER_PRIM = "serde_core::ser::Serializer::serialize_"
+
+
+def _tc(callee, node):
+    """the trait method a call names (the callee may have been resolved to an impl)"""
+    c = (node or {}).get("callee") if isinstance(node, dict) else None
+    return c or callee or ""
+
+
+def _leaf_ty(t):
+    t = (t or "").strip()
+    while t.startswith("&"):
+        t = t[1:].strip()
+        if t.startswith("'"):
+            t = t.split(" ", 1)[1] if " " in t else t
+    return t
+
+
+def enum_encode(F, path):
+    """(leaf type, {variant name: literal emitted}) of the Serialize impl of the unit-only enum `path`: for every variant the one
+    non-failing path makes exactly one primitive emission, of a literal, and returns its result"""
+    fns = F.impl_fn("serde_core::ser::Serialize", path, "serialize")
+    adt = F.adt(path)
+    if len(fns) != 1 or adt is None:
+        raise Unreadable("anchor missing: Serialize for " + path)
+    fn = fns[0]
+    names = [n for p in fn["params"] for n, _ in H.pat_bindings(p)]
+    leaf = set()
+    out = {}
+    for v in adt["variants"]:
+        if v["fields"]:
+            raise Unreadable("%s::%s carries data" % (path, v["name"]))
+        sym = S.Sym(F, fn, is_effect=lambda c, a, n, st: _tc(c, n).startswith(SER_PRIM) or _tc(c, n) == SER_SELF, param_terms={names[0]: ("ctor", path + "::" + v["name"], ())})
+        try:
+            paths = sym.run()
+        except S.TooManyPaths:
+            raise Unreadable("too many paths")
+        if len(paths) != 1 or paths[0].done and paths[0].done[0] == "panic":
+            raise Unreadable("%d paths (or a panic) for %s" % (len(paths), v["name"]))
+        p = paths[0]
+        if len(p.effects) != 1:
+            raise Unreadable("%d emissions for %s" % (len(p.effects), v["name"]))
+        e = p.effects[0]
+        tc = _tc(e.callee, e.node)
+        if tc == SER_SELF:
+            ty, val, ser = _leaf_ty((e.node.get("targs") or [""])[0]), e.args[0], e.args[1]
+        else:
+            ty, val, ser = tc[len(SER_PRIM):], e.args[1], e.args[0]
+        if ser != ("param", names[1]):
+            raise Unreadable("emission for %s does not go to the serializer argument" % v["name"])
+        if p.result != e.term:
+            raise Unreadable("the emission's result is not what is returned for %s" % v["name"])
+        if val[0] != "lit":
+            raise Unreadable("emits %s for %s" % (S.show(val)[:60], v["name"]))
+        leaf.add(ty)
+        out[v["name"]] = val[1]
+    if len(leaf) != 1:
+        raise Unreadable("variants are emitted as different types: %s" % sorted(leaf))
+    return leaf.pop(), out, fn
+
+
+def enum_decode(F, path, domain, add_literals=False):
+    """(leaf type, {value: variant name or None}) of the Deserialize impl: it reads one primitive; when that fails the failure is
+    returned; otherwise the result is decided by comparisons of the value read alone"""
+    fns = F.impl_fn("serde_core::de::Deserialize", path, "deserialize")
+    if len(fns) != 1:
+        raise Unreadable("anchor missing: Deserialize for " + path)
+    fn = fns[0]
+    sym = S.Sym(F, fn, is_effect=lambda c, a, n, st: _tc(c, n) == DE_SELF or _tc(c, n).startswith("serde_core::de::Deserializer::deserialize_"))
+    try:
+        paths = sym.run(split_result=True)
+    except S.TooManyPaths:
+        raise Unreadable("too many paths")
+    reads = {e.term: e for p in paths for e in p.effects}
+    if len(reads) != 1:
+        raise Unreadable("%d reads from the deserializer" % len(reads))
+    rd = next(iter(reads.values()))
+    if _tc(rd.callee, rd.node) != DE_SELF:
+        raise Unreadable("reads through %s" % rd.callee)
+    ty = _leaf_ty((rd.node.get("targs") or [""])[0])
+    var = sym.proj(rd.term, S.OK, 0)
+    good = []
+    for p in paths:
+        known = sym.lookup(p, rd.term)
+        if known == S.ERR:
+            kind, _ = classify(p.result)
+            if kind != "err":
+                raise Unreadable("a failed read is not reported")
+            continue
+        if known != S.OK:
+            raise Unreadable("the read's outcome is not examined on a path")
+        good.append(p)
+    tab = table_of_paths(good, var, domain, add_literals, ignore=lambda a: a[1] == rd.term)
+    out = {}
+    for val, r in tab.items():
+        kind, pay = classify(r)
+        if kind == "ok":
+            name = ctor_name(pay)
+            if name is None:
+                raise Unreadable("value %r decodes to %s" % (val, S.show(pay)[:60]))
+            out[val] = name
+        elif kind == "err":
+            out[val] = None
+        else:
+            raise Unreadable("value %r: result %s" % (val, S.show(r)[:60]))
+    return ty, out, fn
